@@ -12,6 +12,7 @@ import inspect
 import itertools
 import random
 import struct
+import sys
 import time
 from typing import Any
 
@@ -304,6 +305,7 @@ def build_units(tier: str) -> tuple[list[Unit], dict[str, str]]:
     for u in units:
         if u.setup is None:
             u.setup = uc.install
+    units.append(Unit("purity/codec-functions", purity_harness))
     return units, skipped
 
 
@@ -652,7 +654,81 @@ def native_client(mname: str) -> tuple[bool, str]:
         f"({direct_kwargs}) is {direct.pdu.hex()}")
 
 
+def purity_harness(I: Interp) -> None:
+    """Frame contract of the codec (contracts/effects.py): no function of service.py, utils.py,
+    exception.py, helpers.py stores into class attributes, module globals or class-level
+    containers - so parsing/serialising one PDU cannot change how a later one is parsed.  The
+    registries written at import time by __init_subclass__ are the stated exception."""
+    import hashlib
+    import inspect
+    import z3
+    from gallia.services.uds import helpers
+    from gallia.services.uds.core import exception, service, utils
+
+    from . import effects
+    n = 0
+    for mod in (service, utils, exception, helpers):
+        for q, fn, owner in effects.functions_of(mod):
+            if q.endswith(".__init_subclass__"):
+                I.ex.assumptions.add(f"{q} builds a registry at import time (not at run time)")
+                continue
+            try:
+                src = inspect.getsource(fn)
+            except (OSError, TypeError):
+                continue
+            I.ex.functions[q] = hashlib.sha1(src.encode()).hexdigest()[:12]
+            w = effects.shared_state_writes(fn, owner)
+            n += 1
+            I.prove(f"E-pure({q.split('gallia.services.uds.')[-1]}):no-store-into-class-or-"
+                    "module-state", z3.BoolVal(not w), "; ".join(w))
+    I.prove("E-pure:functions-found", z3.BoolVal(n > 200), str(n))
+
+
+PURITY_CORPUS = ["3101ff00", "3102ff00", "3103ff00", "1901ff", "1902ff", "190a", "190f01",
+                 "2c01f20012340101", "2c02f2001112345601", "2c03f200", "2701", "2702aa", "1003",
+                 "1101", "22f190", "3e00", "8501", "1906123456ff", "191101", "191201"]
+
+
+def native_order_dependence() -> tuple[bool, str]:
+    """parse q after p in one process vs. q alone in a fresh process (requests and replies)"""
+    import json
+    import subprocess
+    prog = (
+        "import sys, json\n"
+        "from binascii import unhexlify as u\n"
+        "from gallia.services.uds.core.service import UDSRequest, UDSResponse\n"
+        "def t(h):\n"
+        "    out = []\n"
+        "    for cls, b in ((UDSRequest, u(h)), (UDSResponse, bytes([u(h)[0] + 0x40]) + u(h)[1:])):\n"
+        "        try:\n"
+        "            out.append(type(cls.parse_dynamic(b)).__name__)\n"
+        "        except Exception as e:\n"
+        "            out.append('raises ' + type(e).__name__)\n"
+        "    return out\n"
+        "first = sys.argv[1]\n"
+        "if first != '-':\n"
+        "    t(first)\n"
+        "print(json.dumps({h: t(h) for h in sys.argv[2:]}))\n")
+
+    def run(first: str, rest: list[str]) -> dict:
+        r = subprocess.run([sys.executable, "-c", prog, first] + rest, capture_output=True,
+                           text=True, timeout=120)
+        return json.loads(r.stdout.strip().splitlines()[-1])
+    alone = {}
+    for h in PURITY_CORPUS:
+        alone.update(run("-", [h]))
+    for p in PURITY_CORPUS:
+        after = run(p, PURITY_CORPUS)
+        for h in PURITY_CORPUS:
+            if after[h] != alone[h]:
+                return True, (f"after parsing {p}, {h} parses as {after[h]} (request, reply); in "
+                              f"a fresh process it parses as {alone[h]}")
+    return False, "no order dependence on the corpus of 20 PDUs x 20 predecessors"
+
+
 def native_replay(unit: str, obligation: str, model: dict) -> tuple[bool, str]:
+    if unit.startswith("purity/"):
+        return native_order_dependence()
     if unit.startswith("parse-total/"):
         return native_parse_total(unit, model)
     if unit.startswith("client/"):
@@ -694,6 +770,8 @@ def random_arg(rnd: random.Random, kind: str) -> Any:
 
 
 def native_search(unit: str, obligation: str, seed: int) -> dict | None:
+    if unit.startswith("purity/"):
+        return {}
     if unit.startswith(("parse-total/", "client/")):
         return {}
     cname, alts, fixed = parse_unit(unit)
